@@ -7,7 +7,10 @@ package pod
 @*/
 
 /*@ theory podfilters
-;; theory filters k8s
+;; theory filters filtereq k8s
+;; uses struct{}
+(declare-fun |box!struct{}| (|S!struct{}|) V)
+(declare-fun |unbox!struct{}| (V) |S!struct{}|)
 (declare-fun |F!core/v1.Pod!Spec.NodeName| (V) Str)
 (declare-fun |fdom!Str!V| (V) (Array Str Bool))
 (declare-fun |fval!Str!V| (V) (Array Str V))
@@ -15,6 +18,15 @@ package pod
 (define-fun nodeAccept ((f V) (o V)) Bool
   (and (isPod o) (select (|fdom!Str!V| f) (|F!core/v1.Pod!Spec.NodeName| o))))
 (assert (forall ((f V) (o V)) (! (=> (= (dyntype f) |ty!types/pod.nodeFilter|) (= (accept f o) (nodeAccept f o))) :pattern ((accept f o)))))
+; C17 completeness: node filters built the same way have the same key set and the same (empty struct) values
+(define-fun nodeSame ((a V) (b V)) Bool
+  (and (forall ((k Str)) (= (select (|fdom!Str!V| a) k) (select (|fdom!Str!V| b) k)))
+       (forall ((k Str)) (=> (select (|fdom!Str!V| a) k) (= (select (|fval!Str!V| a) k) (select (|fval!Str!V| b) k))))))
+(assert (forall ((a V) (b V)) (! (=> (and (not (= a vnil)) (not (= b vnil)) (= (dyntype a) |ty!types/pod.nodeFilter|) (= (dyntype b) |ty!types/pod.nodeFilter|))
+    (= (bs a b) (nodeSame a b))) :pattern ((bs a b)))))
+; assumed completeness of reflect.DeepEqual on two (non-nil) node filters: same keys with equal values
+(assert (forall ((a V) (b V)) (! (=> (and (not (= a vnil)) (not (= b vnil)) (= (dyntype a) |ty!types/pod.nodeFilter|) (= (dyntype b) |ty!types/pod.nodeFilter|) (nodeSame a b))
+    (deep-equal a b)) :pattern ((deep-equal a b)))))
 ; assumed consequence of reflect.DeepEqual on two node filters: same key set
 (assert (forall ((a V) (b V)) (! (=> (and (deep-equal a b) (= (dyntype a) |ty!types/pod.nodeFilter|))
     (and (= (dyntype b) |ty!types/pod.nodeFilter|) (forall ((k Str)) (= (select (|fdom!Str!V| a) k) (select (|fdom!Str!V| b) k))))) :pattern ((deep-equal a b)))))
@@ -26,7 +38,11 @@ package pod
   loop 1 inv [range] (and (<= 0 (+ {rangeindex} 1)) (<= (+ {rangeindex} 1) (slen {names})) (not (= {set} vnil)))
   loop 1 inv [set-is-prefix] (forall ((k Str)) (= (select {dom(set)} k)
         (exists ((j Int)) (and (<= 0 j) (< j (+ {rangeindex} 1)) (= (select (sarr {names}) j) k)))))
+  loop 1 inv [set-values-are-the-empty-struct] (forall ((k Str)) (=> (select {dom(set)} k) (= (select {val(set)} k) (|box!struct{}| |mk!struct{}|))))
   ensures [is-node-filter] (and (not (= result vnil)) (= (dyntype result) |ty!types/pod.nodeFilter|))
+  ensures [keys-are-the-names] (forall ((k Str)) (= (select (|fdom!Str!V| result) k)
+        (exists ((j Int)) (and (<= 0 j) (< j (slen {names})) (= (select (sarr {names}) j) k)))))
+  ensures [values-are-the-empty-struct] (forall ((k Str)) (=> (select (|fdom!Str!V| result) k) (= (select (|fval!Str!V| result) k) (|box!struct{}| |mk!struct{}|))))
   ensures [pods-on-named-nodes] (forall ((o V)) (= (accept result o)
         (and (isPod o) (exists ((j Int)) (and (<= 0 j) (< j (slen {names})) (= (select (sarr {names}) j) (|F!core/v1.Pod!Spec.NodeName| o)))))))
 @*/
@@ -42,4 +58,16 @@ package pod
   theory podfilters
   implements filter.ComparableFilter.Equals
   requires [recv] (not (= {f} vnil))
+@*/
+
+/*@ lemma C17-built-twice-NodeFilter
+  props C17
+  theory podfilters
+  var names : (Slice Str)
+  assume (>= (slen names) 0)
+  call r1 := types/pod.NodeFilter names
+  call r2 := types/pod.NodeFilter names
+  call eq := filter.FiltersEqual r1 r2
+  prove [built-the-same-way] (bs r1 r2)
+  prove [compare-equal] eq
 @*/
